@@ -29,6 +29,7 @@ type Program struct {
 }
 
 type FnInfo struct {
+	Vals    []ssa.Value // register index -> value
 	NumRegs int
 	Reg     map[ssa.Value]int
 	IPDom   []int // per block index: immediate post-dominator block index or -1
@@ -246,6 +247,10 @@ func (p *Program) info(fn *ssa.Function) *FnInfo {
 		}
 	}
 	fi.NumRegs = n
+	fi.Vals = make([]ssa.Value, n)
+	for v, i := range fi.Reg {
+		fi.Vals[i] = v
+	}
 	fi.IPDom = ipdoms(fn)
 	p.fnInfo[fn] = fi
 	return fi
